@@ -3,6 +3,7 @@ CONSTANTS
   MaxN = 3
   NOps = 2
   Dev_NoStaleCheck = FALSE
+  Dev_NoStaleCheckUntimed = FALSE
   Dev_NoRearm = TRUE
   EagerKernel = FALSE
 SPECIFICATION Spec
